@@ -101,3 +101,10 @@ Proof. intros H. unfold rd, read. replace (Nat.leb _ _) with false; auto. symmet
 
 Lemma rd_enough n d : (n <= length d)%nat -> exists x r, rd n d = Ok (x, r).
 Proof. intros H. unfold rd, read. replace (Nat.leb _ _) with true; eauto. symmetry; apply Nat.leb_le; lia. Qed.
+
+Lemma rd_enc1 v rest : v < 256 -> rd 1 (enc_be 1 v ++ rest) = Ok (v, rest).
+Proof. intros H. apply rd_enc. exact H. Qed.
+Lemma rd_enc2 v rest : v < 65536 -> rd 2 (enc_be 2 v ++ rest) = Ok (v, rest).
+Proof. intros H. apply rd_enc. exact H. Qed.
+Lemma rd_enc4 v rest : v < 4294967296 -> rd 4 (enc_be 4 v ++ rest) = Ok (v, rest).
+Proof. intros H. apply rd_enc. exact H. Qed.
